@@ -7,6 +7,8 @@ import json
 import random
 from typing import Any
 
+from hypothesis import strategies as st
+
 from vf import gen_ttp, oracle_ttp
 from vf.core import Ctx, HarnessError, Violation, require, sut
 
@@ -37,7 +39,12 @@ META = {
             "complete enumeration of the day-wise consistent four-team "
             "two-round plans (12 assignments per day) in blocks of 12^4 "
             "plans with two fixed leading days; reported in the "
-            "sub-reports, one evaluation per block",
+            "sub-reports, one evaluation per block. (5) 'plan_edge': plans for "
+            "126/128/130 teams and 126..195 days (storage-type edges of plan "
+            "and scratch arrays). (6) 'xml': instances loaded from generated "
+            "RobinX XML texts (home and away limits differ, constraints in "
+            "either order) must carry the declared limits and judge plans by "
+            "them",
     "assumptions": [
         "feasibility and the per-rule count are judged by "
         "vf/oracle_ttp.py (pure Python, no code of the package); the "
@@ -401,9 +408,88 @@ def _report_enum(ctx: Ctx, first_days: list[int]) -> None:
             plans_violating_the_property=stt.get("bad", 0))
 
 
+@st.composite
+def xml_cases(draw: Any) -> dict:
+    """A RobinX XML text that declares a generated constraint setting (home
+    and away limits different, in either order) plus a plan to evaluate."""
+    n = draw(st.sampled_from([4, 4, 6]))
+    rounds = 2
+    sett = draw(gen_ttp.small_setting(n, rounds))
+    cls = draw(st.sampled_from(["circle", "circle", "daywise", "perturbed"]))
+    plan = draw(gen_ttp.plans_of_class(cls, n, rounds))
+    dm = draw(gen_ttp.dist_matrices(n, rounds))
+    return {"n": n, "rounds": rounds, "st": sett, "cls": "xml:" + cls,
+            "plan": plan, "pre": 0, "dist": dm["dist"],
+            "away_first": draw(st.booleans()),
+            "se_first": draw(st.booleans())}
+
+
+def robinx_xml(case: dict) -> str:
+    n, sett, dist = case["n"], case["st"], case["dist"]
+    hmin, hmax, amin, amax, smin, smax = sett
+    ca = [f'<CA3 intp="4" max="{hmax}" min="{hmin}" mode1="H" mode2="GAMES" '
+          'penalty="1" teamGroups1="0" teamGroups2="0" type="HARD"/>',
+          f'<CA3 intp="4" max="{amax}" min="{amin}" mode1="A" mode2="GAMES" '
+          'penalty="1" teamGroups1="0" teamGroups2="0" type="HARD"/>']
+    if case["away_first"]:
+        ca.reverse()
+    se = (f'<SeparationConstraints><SE1 max="{smax}" min="{smin}" '
+          'penalty="1" teamGroups="0" type="HARD"/></SeparationConstraints>')
+    cap = "<CapacityConstraints>" + "".join(ca) + "</CapacityConstraints>"
+    cons = (se + cap) if case["se_first"] else (cap + se)
+    dd = "".join(f'<distance dist="{dist[i][j]}" team1="{i}" team2="{j}"/>'
+                 for i in range(n) for j in range(n))
+    teams = "".join(f'<team id="{i}" league="0" name="T{i + 1}" '
+                    'teamGroups="0"/>' for i in range(n))
+    return ('<?xml version="1.0" encoding="UTF-8" standalone="no"?>'
+            "<Instance><MetaData><InstanceName>GEN</InstanceName></MetaData>"
+            '<Structure><Format leagueIds="0"><numberRoundRobin>2'
+            "</numberRoundRobin><compactness>C</compactness></Format>"
+            "</Structure><Data><Distances>" + dd + "</Distances></Data>"
+            "<Resources><Teams>" + teams + "</Teams></Resources>"
+            "<Constraints>" + cons + "</Constraints></Instance>")
+
+
+def check_xml(ctx: Ctx, case: dict) -> None:
+    """An instance loaded from a RobinX file carries the limits the file
+    declares, and the error count judges plans by exactly these limits."""
+    import io
+
+    from moptipyapps.ttp.errors import Errors
+    from moptipyapps.ttp.game_plan_space import GamePlanSpace
+    from moptipyapps.ttp.instance import _from_stream
+    n, rounds, plan = case["n"], case["rounds"], case["plan"]
+    sett = tuple(case["st"])
+    inst = sut("ttp _from_stream", _from_stream,
+               io.StringIO(robinx_xml(case)))
+    got = (inst.home_streak_min, inst.home_streak_max, inst.away_streak_min,
+           inst.away_streak_max, inst.separation_min, inst.separation_max)
+    require(inst.n_cities == n and inst.rounds == rounds,
+            f"loaded n={inst.n_cities}, rounds={inst.rounds}")
+    require(got == sett, lambda: f"the file declares the limits {list(sett)}"
+            f" (home min/max, away min/max, separation min/max) but the "
+            f"instance has {list(got)}")
+    require([[int(v) for v in row] for row in inst] == case["dist"],
+            "loaded distance matrix differs from the file")
+    space = GamePlanSpace(inst)
+    y = gen_ttp.build_plan(inst, plan, space)
+    v = int(sut("Errors.evaluate", Errors(inst).evaluate, y))
+    reasons = oracle_ttp.infeasibility(plan, n, rounds, sett)
+    require((v == 0) == (not reasons), lambda: f"error count {v} under the "
+            f"declared limits {list(sett)} but the plan is "
+            f"{'feasible' if not reasons else 'infeasible: ' + str(reasons[:3])}")
+    cls, counts = classify(plan, n, rounds, sett, reasons)
+    if counts is not None:
+        require(v == sum(counts.values()), lambda: f"error count {v}, "
+                f"per-rule count {counts} under the declared limits")
+    ctx.rec.case(case, nontrivial=(sett[0:2] != sett[2:4]), labels=[
+        "xml", "xml:home!=away" if sett[0:2] != sett[2:4]
+        else "xml:home==away", f"plan:{cls}"])
+
+
 EDGE_SIZES = ((126, 1), (128, 1), (130, 1), (64, 2), (66, 2), (66, 3))
 
-SUBS = {"plan_edge": check_plan, "plan": check_plan, "bound": check_bound, "climb": check_climb,
+SUBS = {"xml": check_xml, "plan_edge": check_plan, "plan": check_plan, "bound": check_bound, "climb": check_climb,
         "enum": check_enum}
 
 
@@ -420,6 +506,7 @@ def run(ctx: Ctx) -> None:
         sizes=EDGE_SIZES, classes=("circle", "circle", "perturbed", "bye",
                                    "selfplay")), check_plan,
         quick=10, thorough=16 * 10, shrink=False)
+    ctx.given("xml", xml_cases(), check_xml, quick=150, thorough=16 * 600)
     ctx.given("plan", gen_ttp.plan_cases(), check_plan,
               quick=6000, thorough=16 * 10000)
     ctx.given("bound", gen_ttp.bound_cases(), check_bound,
